@@ -35,7 +35,7 @@ Verdict(i) ==
   IN \E exp \in {Ideal!Outcomes(ks)} : \E kp \in {Kept!Outcomes(ks)} : \E kl \in {KeptLim!Outcomes(ks)} :
        PrintT(<<"CASE", ToJson([i |-> i, bad |-> {j \in 1..Len(h) : h[j] # exp[j]}, exp |-> exp, asis |-> AsIs!Outcomes(ks),
                                  law |-> Ideal!MeetsDemand(ks), keptExplains |-> (kp = h /\ kp # exp),
-                                 limKeptExplains |-> (kl = h /\ kl # exp)])>>)
+                                 limKeptExplains |-> (kl = h /\ kl # exp), limkept |-> kl])>>)
 NVerdict(j) ==
   LET c == Progs[j].case
       got == Progs[j].got
